@@ -19,7 +19,7 @@ class C01(PureCheck):
     warm_every = 2
     rule = ("every attribute record (9 fg x 9 bg x {absent,False,True}^6; quick: all 5,184 records without "
             "explicit False + sampled False variants) built through fmtstr(text, **kwargs) with 7 texts "
-            "(empty, ASCII, controls, wide+combining, a combining mark / ZWJ alone in its run), one run of 4095 / 4096 / 5000 / 65537 characters, runs of blanks only under every single attribute and fg + each other attribute, every C0 (without ESC) / DEL / C1 (without CSI) control character first, last and alone in a run, plus values that come out of the parser (FmtStr.from_str / fmtstr on every string of <=3 items over text and SGR / cursor-home sequences, closed or left open), plus multi-run values built with + (empty runs "
+            "(empty, ASCII, controls, wide+combining, a combining mark / ZWJ alone in its run), one run of 4095 / 4096 / 5000 / 65537 characters, every subset of the styles switched on with the int 1 instead of True, runs of blanks only under every single attribute and fg + each other attribute, every C0 (without ESC) / DEL / C1 (without CSI) control character first, last and alone in a run, plus values that come out of the parser (FmtStr.from_str / fmtstr on every string of <=3 items over text and SGR / cursor-home sequences, closed or left open), plus multi-run values built with + (empty runs "
             "included); str(f) is lexed and the token list validated by TLC (Sgr.tla stream terminal). "
             "distinct_nontrivial = distinct (attribute records of all runs, text lengths) with at least one "
             "rendered attribute")
@@ -96,6 +96,12 @@ class C01(PureCheck):
             for text in ([c, 97], [97, c], [c]):
                 yield {"runs": [[list(text), a]]}
                 yield {"runs": [[[120], a], [list(text), [0] * 8], [[121], [0, 2, 0, 0, 2, 0, 0, 0]]]}
+        # every subset of the styles switched on with the int 1 (alone, with colours, next to a run that uses True)
+        for k, st in enumerate(itertools.product((0, 2), repeat=6)):
+            if any(st):
+                a = [(k % 9), (k // 9) % 9] + list(st)
+                yield {"runs": [[[97, 98], a]], "ints": 1}
+                yield {"runs": [[[120], [0, 0] + list(st)], [[10, 121], a]], "ints": 1}
         for k in range(nmulti):
             n = rng.choice([0, 2, 2, 3, 3, 4])
             runs = []
@@ -128,6 +134,10 @@ class C01(PureCheck):
             # escape sequences - open colours at the end, resets in the middle, a tolerated cursor-home
             raw = enc.dec_text(inp["raw"])
             f = FmtStr.from_str(raw) if inp["via"] else fmtstr(raw)
+        elif inp.get("ints"):
+            # styles switched on with the int 1 instead of True (a flag computed as a count, a value read from JSON / argparse)
+            for t, a in runs:
+                f = f + fmtstr(enc.dec_text(t), **{k: (1 if v is True else v) for k, v in enc.dec_atts(a).items()})
         elif len(runs) == 1:
             f = fmtstr(enc.dec_text(runs[0][0]), **enc.dec_atts(runs[0][1]))
         else:
@@ -169,7 +179,11 @@ class C01(PureCheck):
                 f = f.copy()
         s1 = str(f)
         s2 = str(f)
-        return {"op": "str", "f": enc.enc_fmtstr(f), "toks": enc.lex(s1), "toks2": enc.lex(s2), "derive": inp.get("derive", "")}
+        fe = enc.enc_fmtstr(f)
+        if inp.get("ints"):
+            # the value gives a character the style when the stored flag is 1 just as when it is True
+            fe = [[enc.enc_text(c.s), enc.enc_atts({k: (True if v == 1 and k in enc.STYLE_ORDER else v) for k, v in c.atts.items()})] for c in f.chunks]
+        return {"op": "str", "f": fe, "toks": enc.lex(s1), "toks2": enc.lex(s2), "derive": inp.get("derive", "")}
 
     def classify(self, ev):
         if any(any(x in (2, 3, 4, 5, 6, 7, 8) for x in r[1][:2]) or 2 in r[1][2:] for r in ev["f"]):
